@@ -165,6 +165,9 @@ def directed(rng):
         # the string "1" and the number 1 are different ids: neither is a duplicate of the other, each is echoed as it was spelled
         add('string-vs-number-id-%d' % v, {'conc': 3}, [S(call(1)), D, S(call(101)), D, S(call(1), call(101)), D, hret('m1.1'), hret('m2.1'), D, S(call(101), call(1)), D,
                                                         hret('m4.1', OUTS_ERR[v]), hret('m4.2'), D, dict(a='cancel', id='1'), D])
+        # ... for CancelRequest as well: the bare text cancels the number, the quoted text the string, never the other one
+        add('cancel-string-vs-number-%d' % v, {'conc': 3}, [S(call(101)), D, dict(a='cancel', id='1'), D] + ([S(call(1)), D, hret('m2.1'), D, dict(a='cancel', id='1'), D] if v else [])
+                                                           + [hret('m1.1'), D, S(call(1)), D, dict(a='cancel', id='"1"'), D, hret('m%d.1' % (3 if v else 2)), D])
         # CancelRequest for one member of a batch reaches that member only (not its batch-mates, whatever their position)
         add('cancel-one-of-batch-%d' % v, {'conc': 4}, [S(call(1), call(2), note(), call(3)), D, dict(a='cancel', id=str(1 + v)), D, hret('m1.%d' % (1 + v + (1 if v == 2 else 0)), 'ctxerr'), D,
                                                         hret('m1.3'), D] + [hret('m1.%d' % i) for i in (1, 2, 4) if i != 1 + v + (1 if v == 2 else 0)] + [D])
